@@ -416,6 +416,44 @@ class Model:
         return errs
 
 
+def many_twins(rec: Rec, dsize: int, n: int = 12):
+    """Scripted family beyond the BFS bound: n content-identical twins alive at once (two-digit collision suffixes),
+    every single and every pair of them dropped or detached, then new twins created.  Oracle: ids of simultaneously
+    registered nodes pairwise different; lookup returns exactly the live, not detached objects."""
+    config.ID_DIGEST_SIZE = dsize
+    for mode in ("drop", "detach", "detach_self", "replace"):
+        for i, j in [(a, b) for a in range(n) for b in range(a, n)]:
+            NODE_REGISTRY.clear()
+            twins = [RL(1) for _ in range(n)]
+            case = {"digest": dsize, "scenario": "many-twins", "mode": mode, "positions": [i, j], "n": n}
+            rec.count("transitions"); rec.count("traces"); rec.count("evaluations")
+            gone = []
+            for k in sorted({i, j}, reverse=True):
+                t = twins.pop(k)
+                if mode == "detach":
+                    t.detach()
+                    gone.append(t)
+                elif mode == "detach_self":
+                    t.detach_self()
+                    gone.append(t)
+                elif mode == "replace":
+                    twins.append(t.replace(nc=3))
+                del t
+            twins += [RL(1) for _ in range(3)]
+            ids = [t.id for t in twins]
+            if len(set(ids)) != len(ids):
+                rec.violation("C03|many-twins|duplicate-ids", case, f"two simultaneously registered twins share an id: {sorted(ids)}")
+            for t in twins:
+                if ASTNode.get_any(t.id) is not t or RL.get(t.id) is not t:
+                    rec.violation("C03|many-twins|lookup", case, f"a live registered twin is not returned under its id {t.id}")
+                    break
+            for t in gone:
+                if ASTNode.get_any(t.id) is t:
+                    rec.violation("C03|many-twins|detached-returned", case, "a detached twin is still returned by lookup")
+            rec.outcome(f"many-twins:{mode}")
+    NODE_REGISTRY.clear()
+
+
 def plan(tier, seed):
     cfgs = []
     for ds in DIGESTS[tier]:
@@ -427,6 +465,7 @@ def run_shard(cfg):
     rec = Rec(cfg)
     m = Model(cfg["digest"])
     explore(m, cfg["depth"], rec, cfg, procs=cfg.get("procs", 1))
+    many_twins(rec, cfg["digest"])
     rec.bound["digest_sizes"] = sorted(set(rec.bound.get("digest_sizes", [])) | {cfg["digest"]})
     rec.extra["colliding_values"] = {str(cfg["digest"]): list(m.vals)}
     return rec.result()
@@ -434,6 +473,9 @@ def run_shard(cfg):
 
 def replay(case, cfg):
     rec = Rec(cfg)
+    if case.get("scenario") == "many-twins":
+        many_twins(rec, int(case["digest"]), int(case.get("n", 12)))
+        return rec.result()["violations"]
     m = Model(int(case["digest"]))
     hist = [tuple(o) for o in case["history"]]
     w = m.fresh()
